@@ -106,6 +106,8 @@ pub fn run(name: &str, _seed: u64, tier: &str) -> Value {
         "c15_cluster" => crate::recon::c15_cluster(tier, _seed),
         #[cfg(feature = "physics")]
         "c15_vertex" => crate::recon::c15_vertex(tier, _seed),
+        #[cfg(feature = "physics")]
+        "c15_acc" => crate::hough::c15_acc(tier, _seed),
         "c13_dims" => crate::ring::c13_dims(tier),
         "c02_table" => crate::tables::c02_table(tier),
         "c03_table" => crate::tables::c03_table(tier),
